@@ -126,6 +126,18 @@ Definition range_spec (range : option (N * N)) (body : bytes) : range_reply :=
       else R416
   end.
 
+(** The same for a response whose status is not 200 (an error page, a handler's 404 ...): the property
+    speaks about the representation of a 200 response; what the code does with any other status is
+    recorded here — the body is sliced in the same way, the status is kept. *)
+Definition range_spec_st (status : N) (range : option (N * N)) (body : bytes) : range_reply :=
+  match range_spec range body with
+  | R416 => R416
+  | RResp r => RResp {| r_status := if N.eqb status 200 then r_status r else status;
+                        r_content_range := r_content_range r;
+                        r_accept_ranges := r_accept_ranges r;
+                        r_body := r_body r |}
+  end.
+
 (** ---- xval interface ---- *)
 Definition x_ranged (r : ranged) : xval :=
   XL [XN (r_status r); x_option XB (r_content_range r); x_bool (r_accept_ranges r); XB (r_body r)].
@@ -156,11 +168,11 @@ Definition run_parse_range (x : xval) : xval :=
 (** spec component: the specification evaluated on the same input (oracle run) *)
 Definition run_range_spec (x : xval) : xval :=
   match x with
-  | XL [_; h; XN _; XB body] =>
+  | XL [_; h; XN status; XB body] =>
       match d_option d_B h with
       | Some hdr =>
           x_outcome x_range_reply
-            (Ok (range_spec (match hdr with Some v => parse_range v | None => None end) body))
+            (Ok (range_spec_st status (match hdr with Some v => parse_range v | None => None end) body))
       | _ => bad_input
       end
   | _ => bad_input
